@@ -5,6 +5,7 @@ mod order;
 mod universe;
 mod palette;
 mod props;
+mod replay;
 mod report;
 mod ty;
 mod val;
@@ -19,16 +20,21 @@ fn main() {
     let id = args[1].as_str();
     let tier = args[2].as_str();
     core::install_panic_hook();
+    if tier == "--replay" {
+        std::process::exit(replay::run(args.get(3).map(|s| s.as_str()).unwrap_or("")));
+    }
     let code = match id {
         "C01" | "C02" => props::c01::run(id, tier),
         "C03" => props::c03::run(tier),
         "C04" => props::c04::run(tier),
         "C05" => props::c05::run(tier),
+        "C06" => props::c06::run_check(tier),
         "C07" => props::c07::run(tier),
         "C08" => props::c08::run(tier),
         "C09" => props::c09::run(tier),
         "C10" => props::c10::run(tier),
         "C11" => props::c11::run(tier),
+        "C12" => props::c12::run(tier),
         "C13" => props::c13::run(tier),
         "C14" => props::c14::run(tier),
         "C15" => props::c15::run(tier),
